@@ -60,8 +60,9 @@ Definition pool_ok (H : heap) (c : addr) : Prop :=
                 s_arr sp <> s_arr st /\ (s_arr sp < next H)%nat /\ (s_arr st < next H)%nat.
 
 (* what the matcher must guarantee (C01/C08): a reported trailing-slash match
-   comes with freshly written tsrParams *)
-Definition lk_wf (l : lk) : Prop := lk_tsr l = true -> exists tp, lk_tsrw l = Some tp.
+   comes with freshly written tsrParams, and with a route (fox.go:556 dereferences it) *)
+Definition lk_wf (l : lk) : Prop :=
+  lk_tsr l = true -> (exists tp, lk_tsrw l = Some tp) /\ lk_route l <> None.
 
 Definition lk_tsr_params (l : lk) : list param := match lk_tsrw l with Some tp => tp | None => [] end.
 
